@@ -133,6 +133,22 @@ class C14Bounded(Bounded):
         if out != want:
             fail(f"stage order: output {out!r} != {want!r} (transformations, then conversion, postprocessing per query in item order, finalizers once in order)", [])
         samples.append({"backend_output": out})
+        # a backend derived from a backend inherits its backend and output-format stages (class attributes), and an instance created
+        # with collect_errors / backend options composes the same stages
+        class B1(B):
+            pass
+
+        class B1b(B1):
+            name = "derived twice"
+        for Bx, kw in ((B1, {}), (B1b, {}), (B, {"collect_errors": True}), (B1, {"some_option": 1})):
+            bx = Bx(make(8), **kw)
+            outx = bx.convert(SigmaCollection.from_yaml(RULE + "---" + RULE.replace("title: t", "title: u")))
+            ev += 1
+            nontriv += 1
+            idsx = [x.identifier for x in bx.last_processing_pipeline.items]
+            outx = outx[0] if isinstance(outx, list) and len(outx) == 1 else outx
+            if idsx != ["i7", "ph7", "i8", "ph8", "i9", "ph9"] or outx != want:
+                fail(f"derived backend {Bx.__name__} {kw}: items {idsx}, output {outx!r} (expected the stages of the backend it derives from: {want!r})", [Bx.__name__, sorted(kw)])
         # the stage order backend, user, output format does not depend on the priorities of the three pipelines (priority orders the
         # pipelines given to the resolver, i.e. inside the user stage)
         for pb, pu, pf in itertools.product((-5, 0, 10), repeat=3):
